@@ -1077,9 +1077,25 @@ __wrap_pthread_mutex_destroy(pthread_mutex_t *m)
 	SMutex *s = (SMutex *) m;
 	if (s->magic == SMUTEX_MAGIC && s->owner != 0 && sim_active()) {
 		// destroying a locked mutex: undefined behaviour in POSIX
+		char   site[120];
+		size_t o  = 0;
+		Thr   *ow = NULL;
+		site[0]   = 0;
+		for (int i = 0; i < G.nthr; i++)
+			if (G.thr[i]->id == s->owner - 1)
+				ow = G.thr[i];
+		if (ow != NULL)
+			for (unsigned k = 0; k < 4; k++) {
+				auto &h = ow->hsite[(ow->nhsite - 1 - k) % 4];
+				if (h.id != s->id || k >= ow->nhsite)
+					continue;
+				for (int f = 0; f < 4 && h.site[f] != NULL && o + 24 < sizeof(site); f++)
+					o += (size_t) snprintf(site + o, sizeof(site) - o, "%s%p", f ? "<" : "", h.site[f]);
+				break;
+			}
 		sim_violation(NULL, "mutex_destroy_locked",
-		    "mutex #%u destroyed while owned by t%d", s->id,
-		    s->owner - 1);
+		    "mutex #%u destroyed by %s while owned by t%d %s (locked at %s)", s->id,
+		    tl_self ? tl_self->name : "?", s->owner - 1, ow ? ow->name : "?", site);
 	}
 	// is anyone waiting on it?
 	if (sim_active())
@@ -1112,6 +1128,11 @@ __wrap_pthread_mutex_lock(pthread_mutex_t *m)
 	sched_point(EV_MLOCK, s->id, 0);
 	if (s->owner == self->id + 1)
 		return EDEADLK;
+	{
+		auto &h = self->hsite[self->nhsite++ % 4];
+		h.id    = s->id;
+		sim_fp_walk(h.site, 4, 1);
+	}
 	if (s->owner == 0) {
 		s->owner = self->id + 1;
 		return 0;
